@@ -192,6 +192,9 @@ func (g *gg) mapping(depth int, anchored bool) *yaml.Node {
 				if c, err := doc.CanonKey(t); err == nil {
 					kn, ck = doc.AliasNode(t), c
 					g.stats.aliasKey++
+					if t.Tag != "!!str" {
+						g.stats.rawKey++ // an alias to a non-string scalar used as a key: same exclusion as an unquoted int / bool key
+					}
 				}
 			}
 		case 1:
